@@ -6,3 +6,7 @@ NOTES = ("Every check = proof gate (full .vo build, pinned statements re-checked
          "'fix:' commits in /repo and are listed as fixed in known_findings.json.")
 NOT_APPLICABLE = {}
 CLAIMED = {}
+
+# properties whose checks are registered in MANIFEST.json (a check is registered only once it
+# exits 0 on the tree as it stands; see DESIGN.md section 7, last paragraph)
+REGISTERED = ["C01", "C02", "C03", "C09", "C14", "C15", "C19"]
